@@ -102,22 +102,32 @@ static m_ctx_t g_ctxobj; static m_ctx_t *g_mctx;
 m_ctx_t *m_ctx(void) { return g_mctx; }
 void fetch_ms(uint64_t *val, uint64_t *ctr) { *val = 1; if (ctr) (*ctr)++; }
 static bool v_same_str(const char *a, const char *b) { for (size_t i = 0; i < 40; i++) { if (a[i] != b[i]) return false; if (!a[i]) return true; } return false; }
+/* a pill never acts on its recipient directly: it is only ever queued (so that it takes effect behind everything sent earlier) -- also when a module pills itself */
+static size_t g_stop_calls;
+int stop(m_mod_t *mod, bool stopping) { (void)mod; (void)stopping; g_stop_calls++; return 0; }
 void h_pill_real(void) {
     v_inputs_init(); v_base_init();
     V_ASSUME(v_state_valid(vin_state) && vin_pipe_len < ((uint64_t)1 << 60));
-    static m_mod_t recipient;
+    static m_mod_t recipient_obj;
     m_mod_t *sender = m_mem_new(sizeof(m_mod_t), NULL); V_ASSUME(sender != NULL);
+    bool self = vin_has_key & 1;                       /* the module pills itself */
+    if (self) V_ASSUME(vin_state == M_MOD_RUNNING);
+#define recipient (*(self ? sender : &recipient_obj))
+    g_stop_calls = 0;
     g_mctx = &g_ctxobj; sender->ctx = &g_ctxobj; sender->state = M_MOD_RUNNING; sender->flags = 0; sender->tb.tokens = 5; sender->stats.sent_msgs = 0; sender->stats.action_ctr = 0;
     recipient.ctx = &g_ctxobj; recipient.state = (m_mod_states)vin_state; recipient.name = "r"; recipient.pubsub_fd[0] = 7; recipient.pubsub_fd[1] = 8;
     g_pipe_full = false; g_pipe_len = vin_pipe_len; g_write_calls = 0; g_pipe_last = NULL;
+    sender->pubsub_fd[0] = 7; sender->pubsub_fd[1] = 8; sender->name = "s";
     int r = m_mod_ps_poisonpill(sender, &recipient);
+    V_CHECK("C08.pill-is-only-ever-queued-never-applied-ahead-of-earlier-messages", g_stop_calls == 0);
     if (vin_state != M_MOD_RUNNING) V_CHECK("C08.pill-for-a-module-that-is-not-running-is-refused", r == -EINVAL && g_write_calls == 0);
     else {
         ps_priv_t *copy = g_pipe_last;
         V_CHECK("C08.accepted-pill-is-queued-at-the-tail-of-its-recipients-pipe", r == 0 && g_write_calls == 1 && g_write_fd == 8 && g_pipe_len == vin_pipe_len + 1 && copy != NULL
                 && copy->msg.system && copy->msg.topic != NULL && v_same_str(copy->msg.topic, M_PS_MOD_POISONPILL) && copy->msg.sender == sender && copy->sub == NULL);
     }
-    V_COVER("pill-accepted", r == 0); V_COVER("pill-refused", r != 0);
+    V_COVER("pill-accepted", r == 0 && !self); V_COVER("pill-refused", r != 0); V_COVER("pill-to-itself", r == 0 && self);
+#undef recipient
     V_CANARY();
 }
 #if defined(V_NATIVE) || defined(V_SUBREAL)     /* (kept out of the other units' builds: the extra void(void*) stub would become a destructor candidate for CBMC in every harness of this file) */
@@ -132,8 +142,10 @@ static bool v_was_freed(const void *p) { for (size_t i = 0; i < 6; i++) if (i < 
 #ifndef V_SUBSCRIBE_STUBS_OFF
 m_map_t *m_map_new(m_map_flags flags, m_map_dtor fn) { (void)fn; V_CHECK("C09.subscription-table-allows-in-place-update", flags == M_MAP_VAL_ALLOW_UPDATE); g_ent.present = false; return (m_map_t *)&g_tabobj; }
 void *m_map_get(const m_map_t *m, const char *key) { (void)m; (void)key; return g_ent.present ? g_ent.val : NULL; }
+ssize_t m_map_len(const m_map_t *m) { return m == NULL ? -EINVAL : (g_ent.present ? 1 : 0); }
+int m_map_free(m_map_t **m) { if (m == NULL || *m == NULL) return -EINVAL; if (g_ent.present) { g_ent.present = false; mem_dtor(g_ent.val); g_ent.key = NULL; g_ent.val = NULL; } *m = NULL; return 0; }
 int m_map_put(m_map_t *m, const char *key, void *value) {
-    (void)m;
+    if (m == NULL || key == NULL) return -EINVAL;
     if (g_ent.present) { void *old = g_ent.val; g_ent.val = value; mem_dtor(old); }      /* update: stored key kept, old value destroyed */
     else { g_ent.present = true; g_ent.key = key; g_ent.val = value; }
     return 0;
@@ -157,6 +169,9 @@ void h_subscribe_real(void) {
     if (vin_autofree & 1) { r0 = m_mod_ps_subscribe(&modobj, topic, fo, &up1); V_ASSUME(r0 == 0); }      /* an earlier subscription to the same topic (any flags, possibly M_SRC_DUP) */
     size_t freed_before = g_nfreed;
     int r = m_mod_ps_subscribe(&modobj, topic, fn, &up2);
+    unsigned prio = fn & 7u;
+    /* subscribing (again) to a topic with a well-formed flag word succeeds, whatever was subscribed before */
+    if (prio == 0 || prio == 1 || prio == 2 || prio == 4) V_CHECK("C09.subscribing-a-topic-again-succeeds", r == 0);
     if (r == 0) {
         ev_src_t *cur = g_ent.val;
         V_CHECK("C09.one-subscription-per-topic-carrying-the-latest-user-pointer", g_ent.present && cur != NULL && cur->userptr == (void *)&up2 && cur->mod == &modobj && cur->type == M_SRC_TYPE_PS);
